@@ -32,9 +32,9 @@ func init() {
 		Cases: func(tier string) int {
 			switch tier {
 			case "thorough":
-				return 1600
+				return 2400
 			}
-			return 160
+			return 240
 		},
 		Run:         c17Run,
 		RaceOnly:    true,
@@ -59,23 +59,25 @@ func c17Run(c *Ctx) {
 	r := c.R
 	var spec *modelSpec
 	var desc string
+	kind := c.Idx % 20
 	switch {
-	case r.Chance(0.3):
+	case kind < 4:
 		specs := sampleModels()
 		spec = specs[r.Intn(3)]
 		if r.Chance(0.08) {
 			spec = specs[3]
 		}
 		desc = spec.Name
-	case r.Chance(0.3):
-		name := c15Names[r.Intn(len(c15Names))]
+	case kind < 13:
+		// single-node models from the per-operator generators, rotating over all 55
+		// operators; usually every input (also the data operand) is a shared weight
+		name := c15Names[(c.Idx+int(c.Seed))%len(c15Names)]
 		req, _, ok := SampleValidReq(r, name, true)
 		if !ok {
 			c.Skip("no valid request")
 			return
 		}
-		// all parameters but the first input are shared weights
-		spec = specFromOpReq(r, req, ^uint64(0)&^1|(r.U64()&1))
+		spec = specFromOpReq(r, req, ^uint64(0)&^(r.U64()&r.U64()&3))
 		desc = trunc(req.Describe(), 300)
 	default:
 		p := genProgram(r, 8)
